@@ -212,10 +212,17 @@ class Evaluator:
             return self._ev(e)
         except ModelRaises:
             raise
-        except RecursionError:
+        except RecursionError as exc:
+            if getattr(exc, "_verif_planted", False):
+                raise ModelRaises(exc)
             raise
         except Exception as exc:  # noqa: BLE001 - python semantics of the expr
             raise ModelRaises(exc)
+        except BaseException as exc:
+            # KeyboardInterrupt / SystemExit planted by the generator
+            if getattr(exc, "_verif_planted", False):
+                raise ModelRaises(exc)
+            raise
 
     def _with_locals(self, d, body):
         self.locals.append(d)
@@ -373,6 +380,7 @@ def make_callables(log):
         exc = cls()
         try:
             exc._verif_planted = True
+            exc._verif_tag = tag
         except Exception:  # noqa: BLE001
             pass
         raise exc
